@@ -2,25 +2,45 @@
 //! `vharness rs2v <repo> <spec.json> <out_dir>` | `vharness run cNN [args...]` (cases on stdin).
 mod common;
 mod rs2v;
+#[cfg(feature = "c01")]
 mod c01;
+#[cfg(feature = "c02")]
 mod c02;
+#[cfg(feature = "c03")]
 mod c03;
+#[cfg(feature = "c04")]
 mod c04;
+#[cfg(feature = "c05")]
 mod c05;
+#[cfg(feature = "c06")]
 mod c06;
+#[cfg(feature = "c07")]
 mod c07;
+#[cfg(feature = "c08")]
 mod c08;
+#[cfg(feature = "c09")]
 mod c09;
+#[cfg(feature = "c10")]
 mod c10;
+#[cfg(feature = "c11")]
 mod c11;
+#[cfg(feature = "c12")]
 mod c12;
+#[cfg(feature = "c13")]
 mod c13;
+#[cfg(feature = "c14")]
 mod c14;
+#[cfg(feature = "c15")]
 mod c15;
+#[cfg(feature = "c16")]
 mod c16;
+#[cfg(feature = "c17")]
 mod c17;
+#[cfg(feature = "c18")]
 mod c18;
+#[cfg(feature = "c19")]
 mod c19;
+#[cfg(feature = "c20")]
 mod c20;
 
 fn main() {
@@ -39,25 +59,45 @@ fn main() {
             common::silence_panics();
             let rest: &[String] = if args.len() > 3 { &args[3..] } else { &[] };
             match args.get(2).map(|s| s.as_str()).unwrap_or("") {
+                #[cfg(feature = "c01")]
                 "c01" => c01::run(rest),
+                #[cfg(feature = "c02")]
                 "c02" => c02::run(rest),
+                #[cfg(feature = "c03")]
                 "c03" => c03::run(rest),
+                #[cfg(feature = "c04")]
                 "c04" => c04::run(rest),
+                #[cfg(feature = "c05")]
                 "c05" => c05::run(rest),
+                #[cfg(feature = "c06")]
                 "c06" => c06::run(rest),
+                #[cfg(feature = "c07")]
                 "c07" => c07::run(rest),
+                #[cfg(feature = "c08")]
                 "c08" => c08::run(rest),
+                #[cfg(feature = "c09")]
                 "c09" => c09::run(rest),
+                #[cfg(feature = "c10")]
                 "c10" => c10::run(rest),
+                #[cfg(feature = "c11")]
                 "c11" => c11::run(rest),
+                #[cfg(feature = "c12")]
                 "c12" => c12::run(rest),
+                #[cfg(feature = "c13")]
                 "c13" => c13::run(rest),
+                #[cfg(feature = "c14")]
                 "c14" => c14::run(rest),
+                #[cfg(feature = "c15")]
                 "c15" => c15::run(rest),
+                #[cfg(feature = "c16")]
                 "c16" => c16::run(rest),
+                #[cfg(feature = "c17")]
                 "c17" => c17::run(rest),
+                #[cfg(feature = "c18")]
                 "c18" => c18::run(rest),
+                #[cfg(feature = "c19")]
                 "c19" => c19::run(rest),
+                #[cfg(feature = "c20")]
                 "c20" => c20::run(rest),
                 other => {
                     eprintln!("unknown runner {}", other);
